@@ -881,16 +881,36 @@ fn emit_family(prop: &str, seed: u64, quick: bool, out: &mut Vec<Fail>) -> usize
                     // C07 / C05 / C16 / C17 / C04: the functions of every type, as the generator derived them from the property text
                     for (tpath, assoc, vfs) in &expect.fns {
                         let Some((_, td)) = get_type(&st, tpath) else { continue };
-                        let show = |f: &Function| format!("{}{} [{}] {:?}", if f.visibility == Visibility::Public { "pub " } else { "" }, f.name, f.calling_convention.as_str(), f.body);
-                        let want: Vec<String> = assoc.iter().map(|f| format!("{}{} [{}] {}", if f.public { "pub " } else { "" }, f.name, f.cc, match &f.body {
+                        // each property is compared on the aspect its statement is about: which functions there are and what they
+                        // call (C05: address-bound, C07: re-exposed from bases), their conventions (C16), their visibility (C17)
+                        let body_exp = |b: &gen::BodyExp| match b {
                             gen::BodyExp::Address(a) => format!("Address {{ address: {a} }}"),
                             gen::BodyExp::Vftable(n) => format!("Vftable {{ function_name: {n:?} }}"),
-                            gen::BodyExp::Field(fl, n) => format!("Field {{ field: {fl:?}, function_name: {n:?} }}") })).collect();
-                        let got: Vec<String> = td.associated_functions.iter().map(show).collect();
-                        if got != want { gfail(&["C07", "C05", "C16", "C17"], format!("`{tpath}` associated functions {want:?}"), format!("{got:?}")); }
-                        let wantv: Vec<String> = vfs.iter().map(|f| format!("{}{} [{}]", if f.public { "pub " } else { "" }, f.name, f.cc)).collect();
-                        let gotv: Vec<String> = td.vftable.as_ref().map(|v| v.functions.iter().filter(|f| !f.name.starts_with("_vfunc_")).map(|f| format!("{}{} [{}]", if f.visibility == Visibility::Public { "pub " } else { "" }, f.name, f.calling_convention.as_str())).collect()).unwrap_or_default();
-                        if gotv != wantv { gfail(&["C04", "C06", "C16", "C17"], format!("`{tpath}` named vftable functions {wantv:?}"), format!("{gotv:?}")); }
+                            gen::BodyExp::Field(fl, n) => format!("Field {{ field: {fl:?}, function_name: {n:?} }}") };
+                        let is_field = |b: &gen::BodyExp| matches!(b, gen::BodyExp::Field(..));
+                        let want_own: Vec<String> = assoc.iter().filter(|f| !is_field(&f.body)).map(|f| format!("{} {}", f.name, body_exp(&f.body))).collect();
+                        let got_own: Vec<String> = td.associated_functions.iter().filter(|f| !matches!(f.body, FunctionBody::Field { .. })).map(|f| format!("{} {:?}", f.name, f.body)).collect();
+                        if got_own != want_own { gfail(&["C05"], format!("`{tpath}` functions of its own impl block {want_own:?}"), format!("{got_own:?}")); }
+                        let want_base: Vec<String> = assoc.iter().filter(|f| is_field(&f.body)).map(|f| format!("{} {}", f.name, body_exp(&f.body))).collect();
+                        let got_base: Vec<String> = td.associated_functions.iter().filter(|f| matches!(f.body, FunctionBody::Field { .. })).map(|f| format!("{} {:?}", f.name, f.body)).collect();
+                        if got_base != want_base { gfail(&["C07"], format!("`{tpath}` functions re-exposed from its bases {want_base:?}"), format!("{got_base:?}")); }
+                        let want_names: Vec<&str> = assoc.iter().map(|f| f.name.as_str()).collect();
+                        let got_names: Vec<&str> = td.associated_functions.iter().map(|f| f.name.as_str()).collect();
+                        if got_names != want_names && got_own == want_own && got_base == want_base { gfail(&["C07", "C05"], format!("`{tpath}` associated functions in the order {want_names:?}"), format!("{got_names:?}")); }
+                        for w in assoc.iter() {
+                            let Some(g) = td.associated_functions.iter().find(|g| g.name == w.name) else { continue };
+                            if g.calling_convention.as_str() != w.cc { gfail(&["C16"], format!("`{tpath}`::{} has convention {}", w.name, w.cc), g.calling_convention.as_str().to_string()); }
+                            if (g.visibility == Visibility::Public) != w.public { gfail(&["C17"], format!("`{tpath}`::{} is {}", w.name, if w.public { "pub" } else { "private" }), format!("{:?}", g.visibility)); }
+                        }
+                        let wantv: Vec<&str> = vfs.iter().map(|f| f.name.as_str()).collect();
+                        let named: Vec<&Function> = td.vftable.as_ref().map(|v| v.functions.iter().filter(|f| !f.name.starts_with("_vfunc_")).collect()).unwrap_or_default();
+                        let gotv: Vec<&str> = named.iter().map(|f| f.name.as_str()).collect();
+                        if gotv != wantv { gfail(&["C04", "C06"], format!("`{tpath}` named vftable functions {wantv:?}"), format!("{gotv:?}")); }
+                        for w in vfs.iter() {
+                            let Some(g) = named.iter().find(|g| g.name == w.name) else { continue };
+                            if g.calling_convention.as_str() != w.cc { gfail(&["C16"], format!("`{tpath}` vftable function {} has convention {}", w.name, w.cc), g.calling_convention.as_str().to_string()); }
+                            if (g.visibility == Visibility::Public) != w.public { gfail(&["C17"], format!("`{tpath}` vftable function {} is {}", w.name, if w.public { "pub" } else { "private" }), format!("{:?}", g.visibility)); }
+                        }
                     }
                     // C17 / C15: visibility, marker flags, singleton address and doc string of every item; visibility and doc of fields
                     for it in &expect.item_attrs {
